@@ -110,7 +110,7 @@ func genCLI(history bool) *rapid.Generator[*CLICase] {
 			}
 			o.Header = rapid.SampledFrom([]string{"", "", "", "valid", "valid", "unreadable", "invalid"}).Draw(t, "header")
 			o.Prefix = rapid.SampledFrom([]string{"", "", "", "zz_", "gen-"}).Draw(t, "prefix")
-			o.Tags = rapid.SampledFrom([]string{"", "", "extra"}).Draw(t, "tags")
+			o.Tags = rapid.SampledFrom([]string{"", "", "extra", "extra,zzother", "zzother extra"}).Draw(t, "tags")
 			return o
 		}
 		drawScope := func() []int {
